@@ -18,7 +18,7 @@ GEN  : what the tree does with an unsupported encoding and with a script nonce i
        plus exactly one reload script as last child of the first body (nonce from script-src) for rewrites,
        declared length = bytes received, Content-Encoding header decodes the body.
 """
-import json, os, sys
+import json, os, sys, threading
 sys.path.insert(0, os.path.join(os.path.dirname(os.path.abspath(__file__)), "..", "lib"))
 import vlib
 
@@ -43,12 +43,26 @@ def main():
         raise vlib.InfraError("Proxy model (repaired rule) violates %s: spec inconsistent" % mc.violated)
     ck.add_tlc(mc, "Proxy_mc (UnsupportedRule=pass, CspRule=policylist)")
     negs = {}
-    for cfg, inv in (("Proxy_ascoded.cfg", "PassThroughIsIdentity"), ("Proxy_ascoded_csp.cfg", "HtmlGetsExactlyOneScript"),
-                     ("Proxy_ascoded_head.cfg", "HeadIsUntouched"), ("Proxy_ascoded_ctcase.cfg", "HtmlGetsExactlyOneScript"),
-                     ("Proxy_neg_noscripting.cfg", "DocumentOnlyAppendedTo"), ("Proxy_neg_length.cfg", "LengthMatchesBody")):
-        r = vlib.tlc("Proxy", cfg, workers=1, timeout=300)
-        if r.violated != inv:
-            raise vlib.InfraError("negative config %s was not rejected with %s (got %s)" % (cfg, inv, r.violated))
+    neglist = (("Proxy_ascoded.cfg", "PassThroughIsIdentity"), ("Proxy_ascoded_csp.cfg", "HtmlGetsExactlyOneScript"),
+               ("Proxy_ascoded_head.cfg", "HeadIsUntouched"), ("Proxy_ascoded_ctcase.cfg", "HtmlGetsExactlyOneScript"),
+               ("Proxy_neg_noscripting.cfg", "DocumentOnlyAppendedTo"), ("Proxy_neg_length.cfg", "LengthMatchesBody"))
+    negres, negerr = {}, []
+
+    def negrun(cfg):
+        try:
+            negres[cfg] = vlib.tlc("Proxy", cfg, workers=1, timeout=300)
+        except Exception as e:  # noqa
+            negerr.append(e)
+    ths = [threading.Thread(target=negrun, args=(cfg,)) for cfg, _ in neglist]   # independent small runs, side by side
+    for t in ths:
+        t.start()
+    for t in ths:
+        t.join()
+    if negerr:
+        raise negerr[0] if isinstance(negerr[0], vlib.InfraError) else vlib.InfraError(repr(negerr[0]))
+    for cfg, inv in neglist:
+        if negres[cfg].violated != inv:
+            raise vlib.InfraError("negative config %s was not rejected with %s (got %s)" % (cfg, inv, negres[cfg].violated))
         negs[cfg] = inv
     ck.set("negative_configs_rejected", negs)
 
